@@ -27,9 +27,10 @@ RULE = ("exhaustive: every SET of n hits drawn from a small alphabet = all inter
         "x 2 profiles (3 for filter_results) x 2-3 scores; grids and profile lengths are chosen so that overlap == "
         "margin, span == 1.5 L, length == L/2 and L/3, equal starts, equal scores, identical coordinates, nested and "
         "chained hits all occur.  quick: refine_hmmscan_results n<=3 on q0 (6 points, 36,050 sets), q1/q2/q5 (5 points, "
-        "10,700 each), q3 (4 points, 3 scores, 7,806) and n=4 on q4 (4 points, 10,626), both modes; "
+        "10,700 each), q3 (4 points, 3 scores, 7,806), q6 (4 points, 4 (bitscore, e-value) pairs whose e-values tie or run "
+        "opposite to the scores, 18,472) and n=4 on q4 (4 points, 10,626), both modes; "
         "hmmer.remove_overlapping n<=3 on h0/h1/h2 (36,050 + 2 x 10,700); filter_results/filter_result_multiple n<=3 on "
-        "f0/f1/f2 (7,806 + 2,324 + 2,324) and n=4 on f3 (1,820); HMMResult.merge on 450 ordered pairs, remove_incomplete on 3,333 "
+        "f0/f1/f2 (7,806 + 2,324 + 2,324) and n=4 on f3 (1,820); HMMResult.merge on 1,125 ordered pairs (450 with e-value 10**-score, 675 with equal / opposite e-values), remove_incomplete on 3,333 "
         "lists x thresholds.  For every set EVERY permutation of the input list is run (and the hits delivered as one "
         "QueryResult each); q0, h1 and f1 (n<=3) are also run in child processes with PYTHONHASHSEED 0..7.  thorough: "
         "n=4 over the 6-point grids (all permutations for r0s, 6 of 24 elsewhere), three scores for n<=3, seeds 0..15, "
@@ -445,9 +446,13 @@ def _run_random_r(shard: dict[str, Any], run: Any) -> None:
         lens = {name: rng.choice([12, 20, 30, 45, 50, 100]) for name in names}
         ivs = O.intervals(pos)
         hits_set = set()
+        discordant = rng.random() < 0.5
         for _ in range(rng.choice([4, 5, 5, 6])):
             a, b = rng.choice(ivs)
-            hits_set.add((rng.choice(names[:rng.choice([1, 2, 3])]), a, b, rng.choice([1, 2, 3])))
+            hit = (rng.choice(names[:rng.choice([1, 2, 3])]), a, b, rng.choice([1, 2, 3]))
+            if discordant:  # e-values drawn independently of the scores (ties and opposite orders included)
+                hit += (rng.choice([0.0, 1e-9, 1e-5, 1e-2]),)
+            hits_set.add(hit)
         hits = [list(h) for h in sorted(hits_set)]
         for mode in (0, 1):
             check_refine(run, hits, lens, mode, "random", rng)
@@ -615,6 +620,9 @@ def _k_merge_cases() -> Iterator[tuple[list, list]]:
     for (a, b), (c, d) in itertools.product(ivs, ivs):
         for s, t in ((1, 2), (2, 2)):
             yield ["A", a, b, s], ["A", c, d, t]
+        # e-values that do not follow the bitscores: equal (both 0 / both 1e-5) and opposite to the scores
+        for (s, e), (t, f) in (((1, 0.0), (2, 0.0)), ((1, 1e-5), (2, 1e-5)), ((1, 1e-9), (2, 1e-3))):
+            yield ["A", a, b, s, e], ["A", c, d, t, f]
 
 
 def _k_incomplete_cases() -> Iterator[tuple[list[list], list[int]]]:
@@ -744,7 +752,7 @@ def shards(tier: str, seed: int) -> list:
         out += split("R", "q0", [1, 2, 3], 8, "all")
         out += split("R", "q1", [1, 2, 3], 2, "all") + split("R", "q2", [1, 2, 3], 2, "all")
         out += split("R", "q3", [1, 2, 3], 2, "all") + split("R", "q4", [4], 4, "all")
-        out += split("R", "q5", [1, 2, 3], 2, "all")
+        out += split("R", "q5", [1, 2, 3], 2, "all") + split("R", "q6", [1, 2, 3], 4, "all")
         out += split("H", "h0", [1, 2, 3], 4, "all") + split("H", "h1", [1, 2, 3], 2, "all")
         out += split("H", "h2", [1, 2, 3], 2, "all")
         out += split("F", "f0", None, 2, "all") + split("F", "f1", [1, 2, 3], 1, "all") + split("F", "f3", None, 1, "all")
@@ -767,6 +775,7 @@ def shards(tier: str, seed: int) -> list:
         out += split("R", cfg, [1, 2, 3], 6, "all")
     for cfg in ("q1", "q2", "q3", "q5"):
         out += split("R", cfg, [1, 2, 3, 4], 2, "all")
+    out += split("R", "q6", [1, 2, 3], 4, "all") + split("R", "r6", [1, 2, 3], 12, "all")
     for cfg in ("h3", "h4"):
         out += split("H", cfg, [4], 12, "some")
     out += split("R", "r5", [1, 2, 3, 4], 12, "some")
